@@ -1,4 +1,6 @@
 import NxProofs.Window
+import NxProofs.Rc4At
+import NxProofs.ChannelWell
 import NxProofs.KeepAlive
 /-! C01: the receive path of the L1 endpoint refines the L2 channel receiver. `Window.update` does not look at what it
 stores (naturality), the release loop of `process_reliable` is `Core.consume` on the projected packets, so the deliveries
@@ -148,6 +150,18 @@ def wrap (env : Env) (ci : Cipher) : Cipher :=
     dec := fun pos y => match env.decompress (ci.dec pos y) with
       | .ok d => d
       | .error _ => [] }
+
+/-- the cipher of a substream of an endpoint meets the channel's cipher hypothesis, whatever the key -/
+theorem cipherOf_ok (c : Conn) (sub : Nat) : CipherOk (cipherOf c sub) := by
+  unfold cipherOf
+  cases c.cipherOn with
+  | false => exact ⟨fun _ _ => rfl, fun _ _ h => h⟩
+  | true =>
+    simp only [if_true]
+    have h := xorCipher_ok (rc4Ks ((c.relCiphers[sub]?.map StreamCipher.key).getD []))
+    refine ⟨fun p x => ?_, fun p x hx => ?_⟩
+    · simp only [rc4At_eq_xorAt]; exact h.dec_enc p x
+    · simp only [rc4At_eq_xorAt]; exact h.enc_ne p x hx
 
 def SubWF (c : Conn) (sub : Nat) : Prop :=
   sub < c.relCiphers.length ∧ sub < c.fragBufs.length ∧ sub < c.queues.length
@@ -368,21 +382,50 @@ theorem decode_step (env : Env) (sub : Nat) (c : Conn) (core : Core) (p : Packet
       · rw [if_neg h1]; simp [wrap, cipherOf, h4, hdd]
       · intro hon; rw [h4] at hon; cases hon
 
+/-- a payload that is empty or an encoding made at the position where the substream's decryption stands decodes without an
+    exception (given `decompress ∘ compress = id`) -/
+theorem decode_ok_of_well (env : Env) (hround : ∀ b, env.decompress (env.compress b) = .ok b) (sub : Nat) (c : Conn) (core : Core)
+    (p : Packet) (hw : SubWF c sub) (hsub : p.substreamId = sub) (hrel : hasReliable p.flags = true) (ht : p.type = TYPE_DATA)
+    (hpos : c.cipherOn = true → ∃ sc, c.relCiphers[sub]? = some sc ∧ core.decPos = sc.decPos)
+    (hwp : p.payload = [] ∨ ∃ x, p.payload = (wrap env (cipherOf c sub)).enc core.decPos x) :
+    ∃ v, c.decodePayload env p = .ok v := by
+  have hsc : ∃ sc, c.relCiphers[sub]? = some sc := ⟨c.relCiphers[sub]'hw.1, List.getElem?_eq_getElem hw.1⟩
+  obtain ⟨sc, hsc⟩ := hsc
+  by_cases h1 : p.payload.isEmpty = true
+  · have hn : ¬ (p.type = TYPE_DATA ∧ (!p.payload.isEmpty) = true) := by simp [h1]
+    exact ⟨_, decodePayload_plain env c p hn⟩
+  · have hy : p.type = TYPE_DATA ∧ (!p.payload.isEmpty) = true := ⟨ht, by simp [h1]⟩
+    have hsc' : c.relCiphers[p.substreamId]? = some sc := by rw [hsub]; exact hsc
+    rcases hwp with he | ⟨x, hx⟩
+    · rw [he] at h1; exact absurd rfl h1
+    · cases h4 : c.cipherOn with
+      | true =>
+        obtain ⟨sc0, h0, hp0⟩ := hpos h4
+        have : sc0 = sc := by rw [hsc] at h0; cases h0; rfl
+        subst this
+        simp only [wrap, cipherOf, hsc, h4, if_true, Option.map, Option.getD] at hx
+        rw [decodePayload_rel_on env c p sc0 hy hrel hsc' h4, hx, hp0, rc4At_involutive, hround]
+        exact ⟨_, rfl⟩
+      | false =>
+        simp only [wrap, cipherOf, h4, Bool.false_eq_true, if_false] at hx
+        rw [decodePayload_rel_off env c p sc hy hrel hsc' h4, hx, hround]
+        exact ⟨_, rfl⟩
+
 theorem getD_getElem? {α : Type} (l : List α) (i : Nat) (d : α) : (l[i]?).getD d = l.getD i d := by
   simp [List.getD]
 
 /-- **the release loop of `process_reliable` is `Core.consume`** on the projected packets -/
-theorem consume_refines (env : Env) (hnc : ∀ b, env.decompress b ≠ .error .closed) (sub : Nat) (ci : Cipher) :
+theorem consume_refines (env : Env) (hround : ∀ b, env.decompress (env.compress b) = .ok b) (sub : Nat) (ci : Cipher) :
     ∀ (rel : List Packet) (c : Conn) (core : Core), SubWF c sub → cipherOf c sub = ci →
       (∀ q ∈ rel, q.substreamId = sub ∧ hasReliable q.flags = true) →
-      (∀ e, (Conn.consume env sub rel c).err = some e → e = .closed) → RRel c sub core →
+      Core.wellAt (wrap env ci) core (rel.map wireOf) → RRel c sub core →
       RRel (Conn.consume env sub rel c).c sub (core.consume (wrap env ci) (rel.map wireOf)) ∧
       SubWF (Conn.consume env sub rel c).c sub ∧ cipherOf (Conn.consume env sub rel c).c sub = ci := by
   intro rel
   induction rel with
   | nil => intro c core hw hc _ _ hr; exact ⟨hr, hw, hc⟩
   | cons p ps ih =>
-    intro c core hw hc hgood herr hr
+    intro c core hw hc hgood hwell hr
     have hp := hgood p (List.mem_cons_self)
     have hps : ∀ q ∈ ps, q.substreamId = sub ∧ hasReliable q.flags = true := fun q hq => hgood q (List.mem_cons_of_mem _ hq)
     cases he : c.eof with
@@ -398,28 +441,19 @@ theorem consume_refines (env : Env) (hnc : ∀ b, env.decompress b ≠ .error .c
       have hcl : core.closed = false := by rw [hr.closed]; exact he
       have hlive := hr.live he
       simp only [List.map_cons, Core.consume, hcl, Bool.false_eq_true, if_false, Conn.consume]
-      simp only [Conn.consume] at herr
+      simp only [List.map_cons, Core.wellAt, hcl, Bool.false_eq_true, false_or] at hwell
       by_cases ht : p.type = TYPE_DATA
       · -- DATA
         have hk : (wireOf p).kind = .data p.fragmentId := by simp [wireOf, kindOf, ht]
         rw [hk, if_pos ht]
-        rw [if_pos ht] at herr
+        rw [hk] at hwell
+        simp only [] at hwell
         simp only []
-        have hok : ∃ v, c.decodePayload env p = .ok v := by
-          cases hdd : c.decodePayload env p with
-          | error e =>
-            rw [hdd] at herr
-            have he := herr e rfl
-            subst he
-            rcases decodePayload_err_kind env c p _ hdd with h1 | ⟨b, hb⟩
-            · cases h1
-            · exact absurd hb (hnc b)
-          | ok v => exact ⟨v, rfl⟩
+        have hok : ∃ v, c.decodePayload env p = .ok v :=
+          decode_ok_of_well env hround sub c core p hw hp.1 hp.2 ht hlive.2 (by rw [hc]; exact hwell.1)
         obtain ⟨data, c1, hdp, hdata, h_eof, h_q, h_fb, hw1, hc1, hpos1⟩ := decode_step env sub c core p hw hp.1 hp.2 ht hlive.2 hok
         rw [hdp]
-        rw [hdp] at herr
         simp only []
-        simp only [] at herr
         have hwire : (wireOf p).cipher = p.payload := rfl
         rw [hwire]
         have hci : (wrap env (cipherOf c sub)).dec = (wrap env ci).dec := by rw [hc]
@@ -427,16 +461,14 @@ theorem consume_refines (env : Env) (hnc : ∀ b, env.decompress b ≠ .error .c
         have he1 : c1.eof = false := by rw [h_eof]; exact he
         by_cases hf : p.fragmentId = 0
         · rw [if_pos hf, if_neg (by rw [he1]; exact Bool.false_ne_true)]
-          rw [if_pos hf, if_neg (by rw [he1]; exact Bool.false_ne_true)] at herr
           simp only [R.bind, R.ok]
-          simp only [R.bind, R.ok] at herr
           apply ih
           · exact ⟨hw1.1, by show sub < (setAt c1.fragBufs sub _).length; simp only [setAt, List.length_set]; exact hw1.2.1,
                    by show sub < (setAt c1.queues sub _).length; simp only [setAt, List.length_set]; exact hw1.2.2⟩
           · show cipherOf { c1 with fragBufs := _, queues := _ } sub = ci
             rw [← hc, ← hc1]; rfl
           · exact hps
-          · exact herr
+          · exact hwell.2
           · refine ⟨by show false = c1.eof; exact he1.symm, ?_, fun _ => ⟨?_, ?_⟩⟩
             · show (Reasm.absorb core.reasm p.fragmentId _).out = ((setAt c1.queues sub _)[sub]?).getD []
               rw [get_set_self _ _ _ hw1.2.2]
@@ -448,13 +480,12 @@ theorem consume_refines (env : Env) (hnc : ∀ b, env.decompress b ≠ .error .c
               simp [Reasm.absorb, hf]
             · exact hpos1
         · rw [if_neg hf]
-          rw [if_neg hf] at herr
           apply ih
           · exact ⟨hw1.1, by show sub < (setAt c1.fragBufs sub _).length; simp only [setAt, List.length_set]; exact hw1.2.1, hw1.2.2⟩
           · show cipherOf { c1 with fragBufs := _ } sub = ci
             rw [← hc, ← hc1]; rfl
           · exact hps
-          · exact herr
+          · exact hwell.2
           · refine ⟨by show false = c1.eof; exact he1.symm, ?_, fun _ => ⟨?_, ?_⟩⟩
             · show (Reasm.absorb core.reasm p.fragmentId _).out = (c1.queues[sub]?).getD []
               simp only [Reasm.absorb, hf, if_false]
@@ -477,8 +508,8 @@ theorem consume_refines (env : Env) (hnc : ∀ b, env.decompress b ≠ .error .c
           rw [hr.out, h1.2.1]; rfl
         · have hk : (wireOf p).kind = .ping := by simp [wireOf, kindOf, ht, hd]
           rw [hk, if_neg hd]
-          rw [if_neg ht, if_neg hd] at herr
-          exact ih c core hw hc hps herr hr
+          rw [hk] at hwell
+          exact ih c core hw hc hps hwell hr
 
 theorem decodePayload_windows (env : Env) (c c1 : Conn) (p : Packet) (d : Bytes) (h : c.decodePayload env p = .ok (d, c1)) :
     c1.windows = c.windows := by
@@ -538,24 +569,24 @@ def GoodWin (sub : Nat) (w : Window Packet) : Prop := ∀ kq ∈ w.packets, kq.2
 theorem processReliable_refines (env : Env) (sub : Nat) (c : Conn) (w : Window Packet)
     (core : Core) (nrel : Nat) (p : Packet) (hw : SubWF c sub) (hwl : sub < c.windows.length) (hwin : c.windows[sub]? = some w)
     (hgw : GoodWin sub w) (hp : p.substreamId = sub ∧ hasReliable p.flags = true) (hr : RRel c sub core) (hlive : c.eof = false)
-    (hnc : ∀ b, env.decompress b ≠ .error .closed) (herr : ∀ e, (c.processReliable env p).err = some e → e = .closed) :
+    (hround : ∀ b, env.decompress (env.compress b) = .ok b)
+    (hwell : Core.wellAt (wrap env (cipherOf c sub)) core ((w.update p.packetId p).2.map wireOf)) :
     ∃ w', (c.processReliable env p).c.windows[sub]? = some w' ∧ GoodWin sub w' ∧
       Receiver.arrive (wrap env (cipherOf c sub)) ⟨w.map wireOf, nrel, core⟩ (wireOf p) =
         ⟨w'.map wireOf, nrel + (w.update p.packetId p).2.length, (Receiver.arrive (wrap env (cipherOf c sub)) ⟨w.map wireOf, nrel, core⟩ (wireOf p)).core⟩ ∧
       RRel (c.processReliable env p).c sub (Receiver.arrive (wrap env (cipherOf c sub)) ⟨w.map wireOf, nrel, core⟩ (wireOf p)).core ∧
       SubWF (c.processReliable env p).c sub ∧ cipherOf (c.processReliable env p).c sub = cipherOf c sub := by
   have hcl : core.closed = false := by rw [hr.closed]; exact hlive
-  unfold Conn.processReliable at herr ⊢
-  rw [hp.1, hwin] at herr
+  unfold Conn.processReliable
   rw [hp.1, hwin]
-  simp only [] at herr ⊢
+  simp only []
   have hum := update_map wireOf w p.packetId p
   have hid : (wireOf p).id = p.packetId := rfl
   generalize hu : w.update p.packetId p = u at hum
   obtain ⟨w', rel⟩ := u
   simp only [] at hum ⊢
-  have herr' : ∀ e, (Conn.consume env sub rel { c with windows := setAt c.windows sub w' }).err = some e → e = .closed := by
-    rw [hu] at herr; exact herr
+  have hwell' : Core.wellAt (wrap env (cipherOf c sub)) core (rel.map wireOf) := by
+    rw [hu] at hwell; exact hwell
   have hgood_rel : ∀ q ∈ rel, q.substreamId = sub ∧ hasReliable q.flags = true := by
     intro q hq
     have : q ∈ (w.update p.packetId p).2 := by rw [hu]; exact hq
@@ -568,8 +599,8 @@ theorem processReliable_refines (env : Env) (sub : Nat) (c : Conn) (w : Window P
     cases update_packets_mem w _ _ _ this with
     | inl h => rw [h]; exact hp
     | inr h => exact hgw kq h
-  have h0 := consume_refines env hnc sub (cipherOf c sub) rel { c with windows := setAt c.windows sub w' } core
-    ⟨hw.1, hw.2.1, hw.2.2⟩ rfl hgood_rel herr' ⟨hr.closed, hr.out, hr.live⟩
+  have h0 := consume_refines env hround sub (cipherOf c sub) rel { c with windows := setAt c.windows sub w' } core
+    ⟨hw.1, hw.2.1, hw.2.2⟩ rfl hgood_rel hwell' ⟨hr.closed, hr.out, hr.live⟩
   have harr : Receiver.arrive (wrap env (cipherOf c sub)) ⟨w.map wireOf, nrel, core⟩ (wireOf p) =
       ⟨w'.map wireOf, nrel + rel.length, core.consume (wrap env (cipherOf c sub)) (rel.map wireOf)⟩ := by
     simp only [Receiver.arrive, hcl, Bool.false_eq_true, if_false, hid]
